@@ -471,6 +471,44 @@ fn eval_case_inner(line: &str) -> String {
                 Some(s) => format!("MIXED-UP {}", s),
             }
         }
+        "TLSD" => {
+            // TLSD <inner case>: the inner case evaluated on a fresh thread, and again from the destructors of two
+            // thread-local objects of that thread (one created before the library was first used there, one after), i.e.
+            // while the thread is being torn down.  All three must give what the inner case gives anywhere else.
+            let inner: String = t[1..].join(" ");
+            struct Guard {
+                tag: &'static str,
+                line: String,
+                out: std::sync::Arc<std::sync::Mutex<Vec<(&'static str, String)>>>,
+            }
+            impl Drop for Guard {
+                fn drop(&mut self) {
+                    let r = guarded(|| eval_case_inner(&self.line)).unwrap_or_else(|| "PANIC".to_string());
+                    if let Ok(mut g) = self.out.lock() {
+                        g.push((self.tag, r));
+                    }
+                }
+            }
+            thread_local! {
+                static EARLY: std::cell::RefCell<Option<Guard>> = std::cell::RefCell::new(None);
+                static LATE: std::cell::RefCell<Option<Guard>> = std::cell::RefCell::new(None);
+            }
+            let out = std::sync::Arc::new(std::sync::Mutex::new(Vec::new()));
+            let (o2, l2) = (out.clone(), inner.clone());
+            let h = std::thread::Builder::new().stack_size(64 << 20).spawn(move || {
+                EARLY.with(|g| *g.borrow_mut() = Some(Guard { tag: "d1", line: l2.clone(), out: o2.clone() }));
+                let r = guarded(|| eval_case_inner(&l2)).unwrap_or_else(|| "PANIC".to_string());
+                LATE.with(|g| *g.borrow_mut() = Some(Guard { tag: "d2", line: l2.clone(), out: o2.clone() }));
+                r
+            });
+            let main = match h {
+                Ok(h) => h.join().unwrap_or_else(|_| "THREAD-DIED".to_string()),
+                Err(_) => "NO-THREAD".to_string(),
+            };
+            let g = out.lock().map(|g| g.clone()).unwrap_or_default();
+            let get = |tag: &str| g.iter().find(|(t, _)| *t == tag).map(|(_, r)| r.clone()).unwrap_or_else(|| "NOT-RUN".to_string());
+            format!("main={} ; d1={} ; d2={}", main, get("d1"), get("d2"))
+        }
         "ST" => {
             let b = bytes_of_hex(t[1]);
             match guarded(|| SignType::from_bytes(&b)) {
